@@ -166,12 +166,25 @@ def run(ctx, res):
         def p_modw(ip_, st, fr, t, args):
             st.add_eff(("modwrite", args[1].bits, args[2].bits))
             return UNIT
+        import cfg as cfgmod0
+        reach_w = cfgmod0.CallGraph(facts).reachable(k_write)
+        ports_by_name = True
         for nm, kind in (("on_write_ddr", "ddr"), ("on_write_dr", "dr")):
             c = facts.find(nm)
             if len(c) != 1:
                 res.errors.append("anchor %s: %r" % (nm, c))
                 return
+            if c[0] not in reach_w:
+                ports_by_name = False      # the port logic is not entered through the handlers this rule knows: it is followed, and the
+                continue                   # DDR / DR windows are left to C16's composed rule (Bus::write against the per-bit reference)
             ip.primitives[c[0]] = p_port(kind)
+        c = facts.find("send_io_port_value")
+        if len(c) == 1:
+            def p_msg(ip_, st, fr, t, args):
+                st.add_eff(("portmsg",))
+                return Enum(models.OK, [UNIT])
+            ip.primitives[c[0]] = p_msg
+        res.inventory["port_windows"] = "summarised handlers" if ports_by_name else "followed inline; decided by C16 (composed rule)"
         c = facts.find("write_registers")
         if len(c) != 1:
             res.errors.append("anchor write_registers: %r" % c)
@@ -233,7 +246,7 @@ def run(ctx, res):
                     plain = Mx.AND(care, Mx.NOT(isport))
                     portc = Mx.AND(care, isport)
                     sname = None
-                    if portc != 0:
+                    if portc != 0 and ports_by_name:
                         # routed to the port handler when the value changes, otherwise nothing happens
                         pe = [e for e in st.eff if e[0] == "port"]
                         res.ob(nwrites == 0)
